@@ -1,0 +1,24 @@
+//go:build verif
+
+// Contracts for the slipvc verifier (see /verif/DESIGN.md). Comment-only file:
+// with the build tag off it does not exist for the compiler, with the tag on
+// it adds no code.
+
+package repl
+
+//@ define cstart(start) = start < 0 ? 0 : start
+//@ define cend(end, n) = (end < 0 || n <= end) ? n - 1 : end
+
+//@ define active(start, end, n) = 0 < n && start < n && cstart(start) <= cend(end, n)
+//@ define lo(end, n) = n - cend(end, n) - 1
+//@ define cut(start, end, n) = cend(end, n) - cstart(start) + 1
+
+// C20 / C06: clearing the entries numbered start..end (inclusive, numbered
+// from the most recent form as Nth numbers them) keeps every other form, in
+// order: forms == old[:lo] ++ old[lo+cut:].
+//@ func repl.(*Stash).clear
+//@   ensures len-noop: !active(start, end, old(len(s.forms))) ==> len(s.forms) == old(len(s.forms))
+//@   ensures len: active(start, end, old(len(s.forms))) ==> len(s.forms) == old(len(s.forms)) - cut(start, end, old(len(s.forms)))
+//@   ensures prefix: forall k :: (active(start, end, old(len(s.forms))) && 0 <= k && k < lo(end, old(len(s.forms)))) ==> s.forms[k] == old(s.forms[k])
+//@   ensures suffix: forall k :: (active(start, end, old(len(s.forms))) && lo(end, old(len(s.forms))) <= k && k < len(s.forms)) ==> s.forms[k] == old(s.forms[k + cut(start, end, old(len(s.forms)))])
+//@   ensures noop-frame: forall k :: (!active(start, end, old(len(s.forms))) && 0 <= k && k < len(s.forms)) ==> s.forms[k] == old(s.forms[k])
